@@ -4,5 +4,5 @@ CONSTANTS
   MaxLen = 4
   Alphabet <- AlphaRu
   CI <- MCI
-INVARIANTS WellFormedBoth VariantsAgree
+INVARIANTS WellFormedBoth VariantsAgree Idempotent
 CHECK_DEADLOCK FALSE
